@@ -615,7 +615,7 @@ def run(ctx, spec):
                         items.append((f"{opname}@{name}#{rep}", d))
     meta, outs = compare_docs(items, pid, out, seed, tier, spec, dyn_steps=12 if pid == "C17" else 0)
     if pid == "C17":
-        explore_loaded(rng, out, 10 if tier == "quick" else 60)
+        explore_loaded(rng, out, 18 if tier == "quick" else 80)
     mine = [v for v in out["violations"] if v["property"] == pid]
     others = [v for v in out["violations"] if v["property"] != pid]
     # keep one witness per mutation kind
